@@ -204,6 +204,18 @@ def response(qr, case, out, E=None, J=None, dip=None, widths=None, pol=None, rot
             d = tw.d__data
             res[f] = numpy.array(d) if d is not None else None
         npw = len(calc.pathways) if getattr(calc, "pathways", None) is not None else 0
+        if base_call:
+            # the response object normalised by the caller (maximum read, then divided), then read again
+            tw.set_data_flag(qr.signal_TOTL)
+            mx = float(tw.get_max_value())
+            if mx != 0.0 and numpy.isfinite(mx):
+                tw.devide_by(mx)
+                after = {}
+                for f in (qr.signal_TOTL, qr.signal_REPH, qr.signal_NONR):
+                    tw.set_data_flag(f)
+                    d = tw.d__data
+                    after[f] = numpy.array(d) if d is not None else None
+                _state["after_divide"] = (mx, after)
     return res, npw
 
 
@@ -224,6 +236,16 @@ def run_case(case, ctx):
     finally:
         _state["on"] = False
     seen = _state["seen"]
+    adiv = _state.pop("after_divide", None)
+    if adiv is not None and all(base.get(f) is not None for f in (qr.signal_TOTL, qr.signal_REPH, qr.signal_NONR)):
+        mx_, aft = adiv
+        sc_ = float(numpy.max(numpy.abs(base[T]))) / abs(mx_) or 1.0
+        if all(aft.get(f) is not None for f in aft):
+            ctx.check("total==reph+nonr", float(numpy.max(numpy.abs(aft[qr.signal_TOTL] - (aft[qr.signal_REPH] + aft[qr.signal_NONR])))), 1e-12 * sc_,
+                      dict(det, what="after the response was divided by its maximum (total read before and after)"))
+            ctx.check("fourth-power-scaling", float(numpy.max(numpy.abs(aft[qr.signal_TOTL] - base[T] / mx_))), 1e-12 * sc_,
+                      dict(det, what="total after devide_by(max) vs total / max"))
+        ctx.event("responses_normalised_and_read_again")
     routes = _state.pop("pw_routes", None)
     if routes is not None:
         ra, rb = routes
